@@ -68,8 +68,13 @@ def check_prod(smt2, params, spec_):
                 # a monomial the exact product does not have: its coefficient must be (numerically) zero
                 dev = abs(cf)
                 if dev > alarm_thr + rr and alarm is None:
-                    # pick the two operand positions of this monomial for the replay
-                    alarm = ("unexpected term %s with coefficient %.3g in limb %d coefficient %d" % ([dom.names[a] for a in mono], cf, l, k), None)
+                    # replay on the scaled unit inputs at the two operand positions of this monomial
+                    rep = None
+                    ia = [i for i, a in A.items() if a in mono]
+                    ib = [i for i, a in B.items() if a in mono]
+                    if len(mono) == 2 and len(ia) == 1 and len(ib) == 1:
+                        rep = replay_for(ia[0] // nn, ia[0] % nn, 0, ib[0])
+                    alarm = ("unexpected term a[%s]*b[%s] with coefficient %.3g in limb %d coefficient %d" % (ia, ib, cf, l, k), rep)
                 maxdev = max(maxdev, dev)
                 continue
             s, al, i, boff, j = spec[mono]
